@@ -141,8 +141,11 @@ func (p IdentityPather) BlobPath(name string) (string, error) {
 
 // NameFromBlobPath strips the root from bp.
 func (p IdentityPather) NameFromBlobPath(bp string) (string, error) {
-	if !strings.HasPrefix(bp, p.root) {
+	// BlobPath returns a cleaned path, so strip the cleaned root, which ends
+	// in a slash only when it is "/".
+	prefix := strings.TrimSuffix(path.Clean(p.root), "/") + "/"
+	if !strings.HasPrefix(bp, prefix) {
 		return "", errors.New("invalid identity path format")
 	}
-	return bp[len(p.root)+1:], nil
+	return bp[len(prefix):], nil
 }
